@@ -307,6 +307,7 @@ func verifInboundStep(cfg verifStepCfg) *verifStep {
 	s.localIdx = verifChoice(cfg.nLocal)
 
 	s.before = w.snap()
+	verifStepBegin()
 	a.handleInbound(msg, w.locals[s.localIdx], s.src)
 	s.after = w.snap()
 	return s
